@@ -285,7 +285,7 @@ func runHist(c *Ctx) {
 			m, _ := strconv.Atoi(strings.TrimPrefix(extra, "alias="))
 			modes = []int{m}
 			jobs = []c56.Job{j}
-			c.N = 0
+			c.N = -1
 		}
 	}
 	probeInputs := 2
@@ -293,7 +293,7 @@ func runHist(c *Ctx) {
 		probeInputs = len(c56.Inputs)
 		slowLimit = 1500 * time.Millisecond
 	}
-	if c.N > 0 {
+	if c.N >= 0 {
 		jobs = append(c56.GenJobs(c.Rng, c.N, probeInputs), jobs...)
 	}
 	for i := start; i < len(jobs); i++ {
